@@ -43,6 +43,7 @@ def generate(rng, tier):
             sup = None if rng.random() < 0.2 else region()
             cases.append({"regime": regime, "t": t, "sup": sup, "removed": region(),
                           "other": gen.rand_timeline(rng, regime, maxn=5)})
+    cases += gen.far_copies(rng, cases, ['t', 'sup', 'removed', 'other'], (400 if tier == "thorough" else 60))
     return {"cases": cases, "meta": {"exhaustive": True, "small_scope_cases": nex,
                                      "sizes": gen.stats(cases, {"n_t": lambda c: len(c["t"]),
                                                                 "sup_kind": lambda c: c["sup"][0] if c["sup"] else "None"})}}
